@@ -381,6 +381,40 @@ impl ViCut {
 		self.current_buffer().enforce_cursor_clamp();
 	}
 
+	/// A change whose motion fails ('cfx' without an x, 'cj' on the last line, 'ci(' outside parentheses)
+	/// is abandoned like any other operator: nothing is taken and no text is typed.
+	/// (Motions that merely cannot go further, like 'cl' on an empty line, still open the text.)
+	fn change_is_abandoned(&mut self, cmd: &ViCmd) -> bool {
+		if !cmd.verb().is_some_and(|v| matches!(v.1, Verb::Change)) {
+			return false
+		}
+		let can_fail = |m: &MotionCmd| matches!(m.1,
+			Motion::CharSearch(..) |
+			Motion::WordMotion(..) |
+			Motion::LineUp |
+			Motion::LineDown |
+			Motion::ToDelimMatch |
+			Motion::ToBrace(_) |
+			Motion::ToBracket(_) |
+			Motion::ToParen(_) |
+			Motion::WholeLine |
+			Motion::WholeLineExclusive |
+			Motion::EndOfLine |
+			Motion::PatternSearch(_) |
+			Motion::PatternSearchRev(_) |
+			Motion::NextMatch |
+			Motion::PrevMatch |
+			Motion::TextObj(_)
+		) && !matches!(m.1, Motion::TextObj(TextObj::Sentence(_) | TextObj::Paragraph(_)));
+		let Some(motion) = cmd.motion.clone().filter(can_fail) else {
+			return false
+		};
+		let saved_col = self.current_buffer().saved_col;
+		let fails = matches!(self.current_buffer().eval_motion(Some(&Verb::Change), motion), MotionKind::Null);
+		self.current_buffer().saved_col = saved_col;
+		fails
+	}
+
 	fn handle_mode_transition(&mut self, cmd: ViCmd) -> Result<(),String> {
 		let mut select_mode = None;
 		let mut is_insert_mode = false;
@@ -388,36 +422,8 @@ impl ViCut {
 		if self.mode.report_mode() == ModeReport::Insert && self.current_buffer().should_handle_block_insert() {
 			self.current_buffer().handle_block_insert();
 		}
-		if matches!(cmd.verb().unwrap().1, Verb::Change) && self.mode.report_mode() == ModeReport::Normal {
-			// A change whose motion fails ('cfx' without an x, 'cj' on the last line, 'ci(' outside parentheses)
-			// is abandoned like any other operator: nothing is taken and no text is typed.
-			// (Motions that merely cannot go further, like 'cl' on an empty line, still open the text.)
-			let can_fail = |m: &MotionCmd| matches!(m.1,
-				Motion::CharSearch(..) |
-				Motion::WordMotion(..) |
-				Motion::LineUp |
-				Motion::LineDown |
-				Motion::ToDelimMatch |
-				Motion::ToBrace(_) |
-				Motion::ToBracket(_) |
-				Motion::ToParen(_) |
-				Motion::WholeLine |
-				Motion::WholeLineExclusive |
-				Motion::EndOfLine |
-				Motion::PatternSearch(_) |
-				Motion::PatternSearchRev(_) |
-				Motion::NextMatch |
-				Motion::PrevMatch |
-				Motion::TextObj(_)
-			) && !matches!(m.1, Motion::TextObj(TextObj::Sentence(_) | TextObj::Paragraph(_)));
-			if let Some(motion) = cmd.motion.clone().filter(can_fail) {
-				let saved_col = self.current_buffer().saved_col;
-				let fails = matches!(self.current_buffer().eval_motion(Some(&Verb::Change), motion), MotionKind::Null);
-				self.current_buffer().saved_col = saved_col;
-				if fails {
-					return Ok(())
-				}
-			}
+		if self.mode.report_mode() == ModeReport::Normal && self.change_is_abandoned(&cmd) {
+			return Ok(())
 		}
 		let mut inserting_from_visual = false;
 		let mut mode: Box<dyn ViMode> = match cmd.verb().unwrap().1 {
@@ -558,6 +564,10 @@ impl ViCut {
 						}
 						_ => repeat = count as u16
 					}
+				}
+				if entry.as_ref().is_some_and(|entry| self.change_is_abandoned(entry)) {
+					// typed again, the change would be abandoned
+					return Ok(())
 				}
 				// The session is replayed under the clamp it was typed with: entry once, the text `repeat` times, <esc> once
 				let replace_mode = entry.as_ref().is_some_and(|c| c.verb().is_some_and(|v| matches!(v.1, Verb::ReplaceMode)));
